@@ -1,6 +1,12 @@
 #!/bin/bash
-# try_seed.sh <seed-id> <check-id> [tier]: apply a seeded change to /repo, run a check, revert.
+# try_seed.sh <seed-id> <check-id> [tier] [lines]: apply a seeded change in a scratch
+# worktree of /repo (current HEAD, i.e. including fix: commits), run a check against
+# it (GOSYM_REPO), remove the worktree.  Evidence/replays of such runs go to a scratch dir.
 id=$1; chk=$2; tier=${3:-quick}
-cd /repo && git apply /verif/seeded/$id/patch.diff || exit 2
-trap 'git -C /repo checkout -- . ; git -C /repo clean -fdq' EXIT
-cd /verif && ./bin/gosym check $chk --tier $tier 2>&1 | grep -v "^  violation" | tail -${4:-6}
+W=$(mktemp -d /tmp/seedtry-XXXXXX); rmdir $W
+git -C /repo worktree add --detach $W HEAD >/dev/null 2>&1 || exit 2
+V=$(mktemp -d /tmp/seedtry-verif-XXXXXX)
+trap 'git -C /repo worktree remove --force $W >/dev/null 2>&1; rm -rf $W $V' EXIT
+cd $W && git apply -3 /verif/seeded/$id/patch.diff 2>/dev/null || { echo "PATCH-DOES-NOT-APPLY $id"; exit 2; }
+cp /verif/known_findings.json $V/
+cd /verif && GOSYM_REPO=$W GOSYM_VERIF=$V ./bin/gosym check $chk --tier $tier 2>&1 | grep -v "^  violation" | tail -${4:-6}
